@@ -2456,7 +2456,9 @@ func (a *Association) handleData(chunkPayload *chunkPayloadData) []*packet {
 	expectedTSN := a.peerLastTSN() + 1
 	gapDetected := sna32GT(chunkPayload.tsn, expectedTSN)
 
-	sackNow := chunkPayload.immediateSack || gapDetected
+	// RFC 9260 sec 6.2: a duplicate DATA chunk (or one that could not be
+	// accepted) is acknowledged without delay as well.
+	sackNow := chunkPayload.immediateSack || gapDetected || !canPush
 	if state == shutdownSent {
 		sackNow = true
 	}
